@@ -149,6 +149,9 @@ def _execute(lr, view, cfg, ctx, sched):
 
         class L(lr.LRTDPEventListener):
             def end_of_lrtdp_timestep(self, lv):
+                st['raw'] = st.get('raw', 0) + 1
+                if st['raw'] > 2 * 10 ** 6:
+                    raise Inconclusive('2e6 LRTDP time steps without ending (no scheduler decision or model call-back involved)')
                 if not st['main']:
                     return
                 ctx.probe('timestep_events')
